@@ -17,7 +17,7 @@ from mc.report import Report
 LEVEL = "model_checking"
 RULE = ("BFS from every start object (class in {BaseSamples, Samples, SMCSamples} x {numpy,torch,jax} x {float32,float64} x "
         "8 subsets of the optional fields x parameter names stored in non-lexicographic order (b, a) [and (a, b) for numpy], 4 tagged rows; SMCSamples also with zero-valued temperature / evidence) over the action alphabet {int index 0/-1, 3 slices, 2 boolean masks (also one written as a Python list), "
-        "2 index arrays (reversal, repeats), partition at each cut + concatenate (also with one piece pickled / dict-converted in between), pickle round trip, to_dict->from_dict flat/"
+        "2 index arrays (reversal, repeats), partition at each cut + concatenate (also with one piece pickled / dict-converted in between, or holding its columns in another order), pickle round trip, to_dict->from_dict flat/"
         "nested/flat without copying} to depth 3 (quick) / 4 (thorough); abstract state = (class, namespace, dtype, row-tag tuple, field presence, "
         "evidence tag); every transition is executed on the implementation and the resulting object compared with the "
         "reference model (list of row tags + presence + carried evidence)")
@@ -122,6 +122,8 @@ def enabled(model):
         if c in (1, n - 1) or n <= 4:
             acts.append(("partition-concat", c))
     if n >= 2:
+        # the second piece holds the same columns in another order (rebuilt by name): joining either refuses or goes by name
+        acts.append(("partition-reordered-concat",))
         # one piece of the partition goes through a round trip before the pieces are put together again
         acts.append(("partition-roundtrip-concat", "pickle"))
         acts.append(("partition-roundtrip-concat", "dict"))
@@ -173,6 +175,17 @@ def apply(obj, model, action):
             c = action[1]
             pieces = [obj[slice(0, c)], obj[slice(c, None)]]
             new = type(obj).concatenate(pieces)
+            return new, Model(model.cls, model.ns, model.dt, model.flags, model.tags, model.ev)
+        if kind == "partition-reordered-concat":
+            d = obj[slice(1, None)].to_dict(flat=True)
+            d["parameters"] = list(reversed(d["parameters"]))
+            other = type(obj).from_dict(d)  # same rows, columns stored as (a, b) instead of (b, a)
+            try:
+                new = type(obj).concatenate([obj[slice(0, 1)], other])
+            except ValueError as e:
+                if "arameters do not match" in str(e):
+                    return obj, model  # refusing to join sets whose column order differs is the safe answer
+                raise
             return new, Model(model.cls, model.ns, model.dt, model.flags, model.tags, model.ev)
         if kind == "partition-roundtrip-concat":
             if action[1] == "pickle":
